@@ -6,6 +6,7 @@ _MODULES = {
     'kernel': 'dst.kernel',
     'steps': 'dst.steps',
     'wiring': 'dst.wiring',
+    'struct': 'dst.struct',
 }
 
 # property -> list of (profile, share of the run budget)
@@ -16,10 +17,13 @@ PROPERTY_PROFILES = {
     'C04': [('kernel', 0.7), ('steps', 0.3)],
     'C05': [('steps', 1.0)],
     'C06': [('wiring', 1.0)],
-    'C07': [('wiring', 1.0)],
+    'C07': [('wiring', 0.6), ('struct', 0.4)],
     'C08': [('wiring', 1.0)],
     'C15': [('wiring', 1.0)],
-    'C12': [('kernel', 0.8), ('steps', 0.2)],
+    'C09': [('struct', 1.0)],
+    'C10': [('struct', 1.0)],
+    'C11': [('struct', 1.0)],
+    'C12': [('kernel', 0.6), ('steps', 0.2), ('struct', 0.2)],
 }
 
 
